@@ -37,8 +37,8 @@ def gen_inject(r, i):
     op = {"op": "inject", "type": typ, "cls": cls}
     if cls == "request":
         op["code"] = r.choice([rc.GET, rc.GET, rc.POST, rc.PUT])
-        op["handler"] = r.choice(["fast", "pre", "post", "slow", "raise", "slowraise", "missing", "ret4", "ret5", "slowret5"])
-        op["no_response"] = r.choice([None, None, 2, 8, 16, 26])
+        op["handler"] = r.choice(["fast", "pre", "post", "slow", "raise", "slowraise", "missing", "ret4", "ret5", "slowret5", "unser"])
+        op["no_response"] = r.choice([None, None, 2, 8, 16, 26]) if op["handler"] != "unser" else None
         op["dst"] = "mcast" if (typ == "NON" and r.chance(0.2)) else "uni"
     elif cls == "response":
         op["code"] = r.choice([rc.CONTENT, rc.CHANGED, rc.NOT_FOUND, rc.INTERNAL_SERVER_ERROR])
@@ -365,6 +365,9 @@ def execute(sim, scn):
                 return Message(code=aiocoap.BAD_REQUEST, payload=b"r4")
             if self.kind in ("ret5", "slowret5"):
                 return Message(code=aiocoap.SERVICE_UNAVAILABLE, payload=b"r5")
+            if self.kind == "unser":
+                # a Message object that cannot be put on the wire (text payload): what the client gets is a 5.00
+                return Message(payload="text, not bytes")
             return Message(payload=b"r:" + bytes(request.token))
 
         render_get = render_post = render_put = _do
@@ -380,7 +383,7 @@ def execute(sim, scn):
 
     async def setup():
         site = resource.Site()
-        for h in list(HANDLERS) + ["raise", "slowraise", "ret4", "ret5", "slowret5"]:
+        for h in list(HANDLERS) + ["raise", "slowraise", "ret4", "ret5", "slowret5", "unser"]:
             site.add_resource([h], H(h))
         site.add_resource(["park"], Park())
         return await sim.server(site, SERVER_IP, multicast=[("224.0.1.187" if v4 else MCAST, "sim1")])
@@ -587,7 +590,7 @@ def execute(sim, scn):
         mcast = op.get("dst") == "mcast"
         if cls == "request" and typ in ("CON", "NON"):
             h = op["handler"]
-            rclass = {"raise": 5, "slowraise": 5, "missing": 4, "ret4": 4, "ret5": 5, "slowret5": 5}.get(h, 2)
+            rclass = {"raise": 5, "slowraise": 5, "missing": 4, "ret4": 4, "ret5": 5, "slowret5": 5, "unser": 5}.get(h, 2)
             nr = op["no_response"]
             suppressed = nr is not None and bool(nr & (1 << (rclass - 1)))
             if suppressed and h in ("raise", "slowraise", "missing"):
@@ -622,6 +625,14 @@ def execute(sim, scn):
                     continue
                 a = acks[0]
                 piggy = dur < DELAY
+                if h == "unser":
+                    # the response that was ready in time could not be serialised; its 5.00 stand-in may come piggy-backed
+                    # or as a separate response behind an empty ACK -- but the request is acknowledged, once
+                    sim.probe("unserialisable_fast_response")
+                    finals = ([a] if a["msg"]["code"] != 0 else []) + resps
+                    if len({e["msg"]["mid"] for e in finals}) != 1 or (finals[0]["msg"]["code"] >> 5) != 5 or finals[0]["msg"]["token"] != T:
+                        sim.violation("C10/separate-response-count", dict(ident, finals=[rc.summary(e["msg"]) for e in finals][:4]))
+                    continue
                 if piggy:
                     sim.probe("piggyback")
                     if suppressed:
